@@ -983,6 +983,17 @@ class Executor:
                 return self.coerce_store(st, v, getattr(node, 'ctype', None), node, 'cast')
             if nm == '__unsupported__':
                 raise OutOfSubset('cython construct %s at line %d' % (node.args[0].value, node.lineno))
+        # callee given as a plain python spec function: may be applied in any expression position (e.g. inside a
+        # comprehension), as long as it has a single outcome
+        cname = node.func.id if isinstance(node.func, ast.Name) else (node.func.attr if isinstance(node.func, ast.Attribute) else None)
+        cspec = self.cur_callees.get(cname) if cname else None
+        if cspec is not None and callable(cspec) and not isinstance(cspec, (S.Inline, S.Contract)):
+            args = [self.ev(a, st) for a in node.args]
+            kwargs = {k.arg: self.ev(k.value, st) for k in node.keywords}
+            r = cspec(self, st, node, *args, **kwargs)
+            if isinstance(r, (S.Outcomes, S.Raise)):
+                raise OutOfSubset('callee %s with several outcomes in expression position (line %d)' % (cname, node.lineno))
+            return r
         f = self.ev(node.func, st)
         args = [self.ev(a, st) for a in node.args]
         kwargs = {k.arg: self.ev(k.value, st) for k in node.keywords}
@@ -1219,8 +1230,14 @@ class Executor:
     def find_inline_calls(self, node):
         """calls to contract/inline callees inside a statement, innermost first"""
         out = []
+        inside_comp = set()
         for n in ast.walk(node):
-            if isinstance(n, ast.Call):
+            if isinstance(n, (ast.ListComp, ast.GeneratorExp, ast.SetComp, ast.DictComp)):
+                for m in ast.walk(n):
+                    if m is not n:
+                        inside_comp.add(id(m))
+        for n in ast.walk(node):
+            if isinstance(n, ast.Call) and id(n) not in inside_comp:
                 nm = None
                 if isinstance(n.func, ast.Name):
                     nm = n.func.id
